@@ -2076,6 +2076,14 @@ class SymExec:
                 old_b = self.st[lvb[1]]
                 self.st[lvb[1]] = Buf(fresh("%s~view" % old_b.name).single_atom(), {}, old_b.len, old_b.unit, None)
                 self.imprecise.append(("mutable-view-%s" % name, e))
+        if name in ("split_at", "split_first", "split_last", "chunks", "chunks_exact", "windows", "rchunks"):
+            # read-only views of a tracked buffer: the block model does not know which blocks the parts are
+            try:
+                lvb = self.lvalue(recv)
+            except Exception:
+                lvb = None
+            if lvb and lvb[0] in ("key", "slice") and isinstance(self.st.get(lvb[1]), Buf):
+                self.imprecise.append(("view-%s" % name, e))
         if name in ("unwrap", "expect") and e["recv"].get("ty", "").startswith(("std::option::Option", "std::result::Result", "&std::option::Option")):
             v = self.eval(recv)
             self.log("unwrap", node=e, recv=self._p(v), facts=self.path_facts())
